@@ -179,6 +179,14 @@ Section NonInterference.
     - unfold do_multiget. rewrite (resolve_V s p Ed). reflexivity.
   Qed.
 
+  (* calendar-query / addressbook-query / sync-collection / free-busy-query, for EVERY filter *)
+  Lemma do_query_V : forall s p k flt, do_query pol (V s) p k flt = do_query pol s p k flt.
+  Proof.
+    intros s p k flt. destruct (dk p) eqn:Ed.
+    - unfold do_query. rewrite (dark_check_r p Ed). reflexivity.
+    - unfold do_query. rewrite (resolve_V s p Ed). reflexivity.
+  Qed.
+
   Lemma entry_allowed_dark : forall q tg, dk q = true -> entry_allowed pol q tg = None.
   Proof. intros q tg H. unfold entry_allowed. rewrite !(dark_has q _ H). destruct tg; reflexivity. Qed.
 
@@ -238,6 +246,7 @@ Section NonInterference.
     - cbn [fst snd]. rewrite do_get_V. reflexivity.
     - cbn [fst snd]. rewrite do_propfind_V. reflexivity.
     - cbn [fst snd]. rewrite do_multiget_V. reflexivity.
+    - cbn [fst snd]. rewrite do_query_V. reflexivity.
   Qed.
 
   Definition low_eq (a b : store) : Prop := V a = V b.
